@@ -258,9 +258,6 @@ func c05InterpJSON(c c05Case) (v kit.Verdict) {
 	if out.Panic == nil && out.Err == nil {
 		res = target.Elem()
 	}
-	if c.EP == "native" && os.Getenv("C05_DEBUG_NATIVE") != "" {
-		fmt.Fprintf(os.Stderr, "NATIVE nm=%d err=%v\n", c.NM, out.Err)
-	}
 	o.walkStruct(c.S, &c.D, res, "")
 	o.class("ep:" + c.EP)
 	for i := range c.W {
@@ -574,7 +571,7 @@ func TestVerif_C05_json(t *testing.T) {
 // rule "native": the same interpreter and oracle on hand-built map documents only (the value
 // TYPES of the document are a dimension of their own; rule json spends 14 % of its cases there).
 func TestVerif_C05_native(t *testing.T) {
-	kit.Run(t, "C05", "native", kit.Opts{Quick: 20000, Thorough: 640000}, c05GenNativeCase, c05InterpJSON)
+	kit.Run(t, "C05", "native", kit.Opts{Quick: 16000, Thorough: 512000}, c05GenNativeCase, c05InterpJSON)
 }
 
 // ---- P3: YAML agreement ----
@@ -592,6 +589,9 @@ func c05InterpYAML(c c05Case) (v kit.Verdict) {
 	ty := reflect.New(tj.Type().Elem()) // same type: env= names are part of the tags
 	js := c.D.JSON()
 	ys := c.D.YAML(c.Y)
+	if c.EP == "truncated" {
+		return c05InterpTruncated(&c, tj.Type().Elem(), js, ys)
+	}
 	oj := c05Call(func() error { return mapping.UnmarshalJsonBytes([]byte(js), tj.Interface()) })
 	oy := c05Call(func() error {
 		if c.EP == "reader" {
@@ -648,20 +648,60 @@ func c05InterpYAML(c c05Case) (v kit.Verdict) {
 	return c05Finish(v, o, c05Depth(c.S))
 }
 
+// c05InterpTruncated: the document text is cut inside its last token (a malformed document):
+// an unclosed JSON object / YAML flow mapping denotes no document at all, so every entry point
+// must fail with an error (block-style YAML may stay well-formed: no panic only).
+func c05InterpTruncated(c *c05Case, typ reflect.Type, js, ys string) (v kit.Verdict) {
+	v.Classes = []string{"yaml-ep:truncated", fmt.Sprintf("yaml-style:%d", c.Y)}
+	v.NonTrivial = true
+	jt := strings.TrimRight(js, " \n")
+	jt = jt[:len(jt)-1]
+	yt := strings.TrimRight(ys, " \n")
+	yt = yt[:len(yt)-1]
+	calls := []struct {
+		name   string
+		strict bool
+		fn     func(t any) error
+	}{
+		{"UnmarshalJsonBytes", true, func(t any) error { return mapping.UnmarshalJsonBytes([]byte(jt), t) }},
+		{"conf.LoadFromJsonBytes", true, func(t any) error { return conf.LoadFromJsonBytes([]byte(jt), t) }},
+		{"UnmarshalYamlBytes", c.Y == 0, func(t any) error { return mapping.UnmarshalYamlBytes([]byte(yt), t) }},
+		{"UnmarshalYamlReader", c.Y == 0, func(t any) error { return mapping.UnmarshalYamlReader(strings.NewReader(yt), t) }},
+		{"conf.LoadFromYamlBytes", c.Y == 0, func(t any) error { return conf.LoadFromYamlBytes([]byte(yt), t) }},
+	}
+	for _, k := range calls {
+		t := reflect.New(typ)
+		out := c05Call(func() error { return k.fn(t.Interface()) })
+		switch {
+		case out.Panic != nil:
+			o := c05NewOracle() // (the predicates of known panics: a truncated block-style YAML text may still be a document)
+			o.walkStruct(c.S, &c.D, reflect.Value{}, "")
+			return kit.Verdict{Fail: fmt.Sprintf("P0 %s panicked on a truncated document: %v | %s", k.name, out.Panic, c05Describe(c)),
+				Known: c05PanicKnown(o, fmt.Sprint(out.Panic)), Classes: v.Classes}
+		case out.Err == nil && k.strict:
+			return kit.Verdict{Fail: fmt.Sprintf("P1 %s returned nil for a document cut before its closing brace (json %q yaml %q) | %s", k.name, jt, yt, c05Describe(c)), Classes: v.Classes}
+		}
+	}
+	return v
+}
+
 func c05GenYAMLCase(rt *rapid.T) c05Case {
-	cfg := &c05GenCfg{tag: "json", keyStyles: c05AllStyles, maxDepth: 3}
+	cfg := &c05GenCfg{tag: "json", keyStyles: c05AllStyles, maxDepth: 3, dotted: true}
 	var c c05Case
 	c.S = c05GenFields(rt, cfg, 1, 6, "")
 	mode := c05W(rt, "docmode", []string{"mixed", "plain", "hostile", "focus"}, []int{20, 40, 10, 30})
-	g := &c05DocGen{rt: rt, plain: mode == "plain", hostile: 6, focus: mode == "focus", big: c05Rare(rt, "bigcase", 100), wideKeys: true}
+	g := &c05DocGen{rt: rt, plain: mode == "plain", hostile: 6, focus: mode == "focus", big: c05Rare(rt, "bigcase", 100), wideKeys: true, yamlNums: true}
 	if mode == "hostile" {
 		g.hostile = 30
 	}
 	c.D = g.object(c.S, 1)
 	c.Y = rapid.IntRange(0, 1).Draw(rt, "yamlstyle")
 	c.W = c05GenWarmups(rt)
-	if rapid.IntRange(0, 3).Draw(rt, "yamlreader") == 1 {
+	switch rapid.IntRange(0, 19).Draw(rt, "yamlreader") {
+	case 1, 2, 3, 4, 5:
 		c.EP = "reader"
+	case 6:
+		c.EP = "truncated"
 	}
 	return c
 }
@@ -767,7 +807,8 @@ func c05GenConfCase(rt *rapid.T) c05ConfCase {
 	g := &c05DocGen{rt: rt, plain: mode == "plain", hostile: 5, focus: mode == "focus", big: c05Rare(rt, "bigcase", 300)}
 	c.D = g.object(c.S, 1)
 	c.D2 = c05Respell(rt, c.S, c.D)
-	c.F = c05W(rt, "conffile", []string{"", ".json", ".yaml", ".yml", ".YML", ".Json"}, []int{80, 6, 5, 4, 3, 2})
+	c.F = c05W(rt, "conffile", []string{"", ".json", ".yaml", ".yml", ".YML", ".Json", ".json+env", ".yml+env", ".txt", ".toml", ".", "missing.json"},
+		[]int{72, 6, 5, 4, 3, 2, 3, 2, 1, 1, 1, 1})
 	c.Y = rapid.IntRange(0, 1).Draw(rt, "yamlstyle")
 	return c
 }
@@ -785,23 +826,41 @@ func c05InterpConf(c c05ConfCase) (v kit.Verdict) {
 	j1, j2, y2 := c.D.JSON(), c.D2.JSON(), c.D2.YAML(c.Y)
 	o1 := c05Call(func() error { return conf.LoadFromJsonBytes([]byte(j1), t1.Interface()) })
 	tf := reflect.New(t1.Type().Elem())
-	yamlFile := strings.HasPrefix(strings.ToLower(c.F), ".y")
+	tm := reflect.New(t1.Type().Elem())
+	ext := strings.TrimSuffix(c.F, "+env")
+	useEnv := ext != c.F
+	yamlFile := strings.HasPrefix(strings.ToLower(ext), ".y")
+	knownExt := map[string]bool{".json": true, ".yaml": true, ".yml": true}[strings.ToLower(ext)]
+	dollar, mustLoaded := false, false
 	of := c05Call(func() error {
 		if c.F == "" {
 			return nil
 		}
 		// what the user does: a file on disk, the loader chosen by its extension
 		content := j1
-		if strings.HasPrefix(strings.ToLower(c.F), ".y") {
+		if yamlFile {
 			content = c.D.YAML(c.Y)
 		}
+		dollar = strings.Contains(content, "$")
 		c05FileSeq++
-		path := filepath.Join(kit.WorkDir(), fmt.Sprintf("c05-conf-%d%s", c05FileSeq, c.F))
+		path := filepath.Join(kit.WorkDir(), fmt.Sprintf("c05-conf-%d%s", c05FileSeq, ext))
+		if c.F == "missing.json" {
+			return conf.Load(path, tf.Interface()) // no such file
+		}
 		if err := os.WriteFile(path, []byte(content), 0o600); err != nil {
 			panic("c05: cannot write " + path + ": " + err.Error())
 		}
 		defer os.Remove(path)
-		return conf.Load(path, tf.Interface())
+		if useEnv {
+			return conf.Load(path, tf.Interface(), conf.UseEnv())
+		}
+		err := conf.Load(path, tf.Interface())
+		if err == nil && knownExt {
+			// MustLoad exits the process on an error: only called where Load has just succeeded
+			conf.MustLoad(path, tm.Interface())
+			mustLoaded = true
+		}
+		return err
 	})
 	o2 := c05Call(func() error { return conf.LoadFromJsonBytes([]byte(j2), t2.Interface()) })
 	o3 := c05Call(func() error { return conf.LoadFromYamlBytes([]byte(y2), t3.Interface()) })
@@ -848,6 +907,19 @@ func c05InterpConf(c c05ConfCase) (v kit.Verdict) {
 		switch {
 		case of.Panic != nil:
 			v.Fail = fmt.Sprintf("P0 conf.Load(%s file) panicked: %v | %s", c.F, of.Panic, desc())
+		case c.F == "missing.json":
+			if of.Err == nil {
+				v.Fail = fmt.Sprintf("P1 conf.Load of a file that does not exist returned nil | %s", desc())
+			}
+		case !knownExt:
+			// a file type conf does not know: an error, or (should it be read as JSON after all) the same struct
+			if of.Err == nil && (o1.Err != nil || !reflect.DeepEqual(t1.Elem().Interface(), tf.Elem().Interface())) {
+				v.Fail = fmt.Sprintf("P1 conf.Load(%q file) returned nil with %s; the content as JSON gives err=%v %s | %s", ext, c05Sprint(tf.Elem()), o1.Err, c05Sprint(t1.Elem()), desc())
+			}
+		case useEnv && dollar:
+			o.class("conf-file:env-expansion-applies") // UseEnv rewrites $NAME in the file: another document (not judged)
+		case mustLoaded && !reflect.DeepEqual(tf.Elem().Interface(), tm.Elem().Interface()):
+			v.Fail = fmt.Sprintf("P4 conf.MustLoad gives %s, conf.Load of the same file %s | %s", c05Sprint(tm.Elem()), c05Sprint(tf.Elem()), desc())
 		case !yamlFile && (o1.Err == nil) != (of.Err == nil):
 			v.Fail = fmt.Sprintf("P4 conf.Load(%s file): err=%v, conf.LoadFromJsonBytes of the same bytes: err=%v | %s", c.F, of.Err, o1.Err, desc())
 		case yamlFile && plain && of.Err != nil:
